@@ -56,8 +56,8 @@ BindingInitQuick ==
      nl \in {0, 1}, pc \in {0, 4}, dg \in {3}, nt \in {0, 1} :
        InitWith(MkStmtShape(np, cm, pl, phs, nl, pc, dg, nt))
 BindingInitThorough ==
-  \E np \in {1, 2, 3}, cm \in {0, 1, 2}, pl \in {<<>>, <<1>>, <<2, 1>>, <<1, 0, 2>>},
-     phs \in { <<Ph(3, 0)>>, <<Ph(3, 1), Ph(1, 1)>>, <<Ph(4, 0), Ph(2, 1), Ph(1, 1)>> },
+  \E np \in {1, 2, 3}, cm \in {0, 1, 2}, pl \in {<<>>, <<1, 0, 2>>},
+     phs \in { <<Ph(3, 0)>>, <<Ph(4, 0), Ph(2, 1), Ph(1, 1)>> },
      nl \in {0, 2}, pc \in {0, 7}, dg \in {3}, nt \in {0, 1} :
        InitWith(MkStmtShape(np, cm, pl, phs, nl, pc, dg, nt))
 BindingSpecQuick == BindingInitQuick /\ [][Next]_vars
